@@ -167,6 +167,9 @@ def C16(ctx):
     RO.check_destroy_before_free(ctx, us, SEQ_OWNERS)
     RO.check_destroy_before_free(ctx, uo, ["frg::unique_ptr"], rule="O4.destroy-before-free")
     RO.check_allocator_stable(ctx, uo, ["frg::unique_ptr"])
+    RO.check_move_assign_releases(ctx, uo, ["frg::unique_ptr"])
+    ctx.rule("R.forward-once", "an argument forwarded as an rvalue is consumed at most once per activation: never inside a loop body", 1)
+    RO.check_forward_once_fns(ctx, us, {"frg::construct_n"})
     RO.check_relocation(ctx, us, ["frg::vector", "frg::small_vector"])
     ctx.rule("O7.no-use-after-release", "a pointer is not dereferenced or passed on after the block it designates was "
              "destroyed / returned to the allocator, until it is reassigned", 8)
@@ -263,6 +266,7 @@ def C20(ctx):
     RP.check_magnitude_unsigned(ctx, uf)
     RP.check_positional_fetch(ctx, uf)
     RP.check_float_lengths(ctx, uf)
+    RP.check_digits_length(ctx, uf)
     RP.check_grouping_cursor(ctx, uf)
     ctx.rule("R.self-recursion", "no parser or helper calls itself on every path", 0)
     RBI.check_self_recursion(ctx, uf, [f for f in uf.functions if f.uq.startswith("frg::")])
@@ -283,6 +287,7 @@ def C19(ctx):
     RP.check_int_conversion_table(ctx, uf)
     RP.check_agent_discipline(ctx, uf)
     RP.check_fmt_spec(ctx, uf)
+    RP.check_sized_text(ctx, uf)
     ctx.rule("B6.fmt-width-range", "the {}-spec parser rejects a width before the step that would overflow it (so an "
              "out-of-range width makes the spec malformed and it is echoed unchanged)", 1)
     RST.check_accumulation(ctx, "B6.fmt-width-range", [f for f in uf.functions if f.name == "parse_fmt_spec"][:1], strict_unsigned=True)
@@ -303,6 +308,7 @@ def C17(ctx):
     RHO.check_returns(ctx, u, [f for f in u.functions if (f.owner_cls or "") in HOLDERS])
     RHO.check_copy_selects_copy(ctx, u)
     RO.check_forward_collapsed(ctx, u, [f for f in u.functions if f.uq.startswith("frg::")])
+    RO.check_move_through_reference_member(ctx, u, [f for f in u.functions if f.uq.startswith("frg::_tuple::") or f.uq.startswith("frg::tuple")])
     RHO.check_holder_specials(ctx, u, HOLDERS)
     return ("Structural clauses of C17: the engaged-flag state machine of optional/expected/variant/manual_box interpreted "
             "abstractly from every consistent entry state (construct only into empty storage, destroy only a live object, flag "
